@@ -271,7 +271,52 @@ def kernel(task):
 
 
 def run(task):
-    return {"options": options, "kernel": kernel, "exchange": exchange, "fit_trace": fit_trace}[task["op"]](task)
+    return {"options": options, "kernel": kernel, "exchange": exchange, "fit_trace": fit_trace, "choice": choice}[task["op"]](task)
+
+
+def choice(task):
+    """random_choice draws index i with probability p[i]: inverse-CDF semantics against the same uniform draw"""
+    import numba
+
+    bad = []
+    n = 0
+    rnd = np.random.RandomState(task["seed"])
+    if PY:
+        orig = np.random.random
+        try:
+            for _ in range(task["n"]):
+                k = rnd.randint(2, 6)
+                p = rnd.dirichlet(np.ones(k))
+                if rnd.rand() < 0.3:
+                    p[rnd.randint(k)] = 0.0
+                    p /= p.sum()
+                cs = np.cumsum(p)
+                for u in list(rnd.rand(3)) + [0.0, float(cs[0]) * 0.999999, min(0.999999, float(cs[0]) * 1.000001)]:
+                    np.random.random = lambda _u=u: _u
+                    got = int(J.random_choice(p))
+                    want = int(sum(1 for c in cs if c <= u))
+                    n += 1
+                    if got != want or p[min(got, k - 1)] == 0.0:
+                        bad.append({"p": p.tolist(), "u": float(u), "impl": got, "model": want})
+        finally:
+            np.random.random = orig
+    else:
+        @numba.njit
+        def draw():
+            return np.random.random()
+
+        for i in range(task["n"]):
+            k = rnd.randint(2, 6)
+            p = rnd.dirichlet(np.ones(k))
+            J.seed_numba(task["seed"] * 7919 + i)
+            got = int(J.random_choice(p))
+            J.seed_numba(task["seed"] * 7919 + i)
+            u = draw()
+            want = int(sum(1 for c in np.cumsum(p) if c <= u))
+            n += 1
+            if got != want:
+                bad.append({"p": p.tolist(), "u": float(u), "impl": got, "model": want})
+    return {"n": n, "bad": bad[:5]}
 
 
 def exchange(task):
